@@ -73,11 +73,11 @@ PROPS = {
     "C16": dict(
         module="Anonymongo.Props.C16",
         theorems=["Anonymongo.Atlas.C16_requests", "Anonymongo.Atlas.C16_outputs", "Anonymongo.Atlas.C16_window", "Anonymongo.Atlas.C16_hosts", "Anonymongo.Atlas.C17_no_leftovers",
-                  "Anonymongo.Facts_atlas_requests", "Anonymongo.Facts_footprint_atlas"],
-        extra_modules=["Anonymongo.Props.SrcFacts"],
+                  "Anonymongo.Facts_atlas_requests", "Anonymongo.Facts_footprint_atlas", "Anonymongo.C16_window_default", "Anonymongo.C16_window_given", "Anonymongo.C16_window_one_sided", "Anonymongo.C16_window_clock_free", "Anonymongo.C16_window_model"],
+        extra_modules=["Anonymongo.Props.SrcFacts", "Anonymongo.Props.C16b"],
         corr=[],
         statement="over the trace model of Atlas mode, for EVERY number of hosts: when nothing fails the authenticated requests are the cluster lookup followed by exactly one log download per host in host order, and <outputFile>.<i> receives the redaction of host i's file for i = 0..n-1 in order, each once; without dates the window is (now - 7 days, now) with start < end, with dates it is what was given; hosts are the members of the connection string in order with ports stripped; REGENERATED facts (Facts_atlas_requests, kernel-decided): the two request templates of atlas.go (cluster description; host log with endDate / startDate), the literal request headers, the temporary-file pattern and the <outputFile>.<i> pattern are exactly the expected ones and the repository sets no other header",
-        partial="the trace model (Model/Atlas.lean) covers the orchestration only; net/http, the digest negotiation, connstring.Parse, gzip, temp-file naming and 'stored verbatim' are runtime: tied by whole-program runs against an in-process fake endpoint (request log, query parameters, valid digest responses, every <out>.<i> byte-compared with the tool's own redaction of the same bytes); SRV connection strings need DNS and are exercised as the error path only",
+        partial="the time window is proved about the function TRANSLATED from reader.go on every run (Generated/Window.lean, Props/C16b: no dates -> the last seven days ending at the clock read; both dates -> exactly those; never the clock unless both are absent; the hand-written Atlas.window equals it wherever main can call it); the trace model (Model/Atlas.lean) covers the orchestration only; net/http, the digest negotiation, connstring.Parse, gzip, temp-file naming and 'stored verbatim' are runtime: tied by whole-program runs against an in-process fake endpoint (request log, query parameters, valid digest responses, every <out>.<i> byte-compared with the tool's own redaction of the same bytes); SRV connection strings need DNS and are exercised as the error path only",
         trusted=["net/http, mongodb-forks/digest, mongo-driver connstring, compress/gzip, os.CreateTemp"],
     ),
     "C17": dict(
